@@ -101,6 +101,11 @@ func (c *Ctx) genSquareCase(maxChoices []int) sqCase {
 				// bytes under version 1). On the unchanged tree they are refused and nothing happens; if a change
 				// makes one acceptable it flows into the square like any other blob and every oracle sees it
 				probe := specs[j]
+				if c.rng.Bool() {
+					// in the 20-byte window below a sparse share boundary, where a signer (or a wrongly assumed one)
+					// changes the share count
+					probe.data = c.payload(478 + 482*c.rng.Range(0, 2) - c.rng.Range(0, 19))
+				}
 				switch c.rng.Intn(3) {
 				case 0:
 					probe.ver, probe.signer = 0, []byte{}
@@ -1209,6 +1214,29 @@ func streamBHist(c *Ctx) {
 				}
 				if b.CurrentSize() != ne.total() {
 					fail("C06", fmt.Sprintf("running estimate is %d after the append, the closed-form worst case is %d", b.CurrentSize(), ne.total()))
+				}
+				if t.isBlob && sc.class == "" && !t.noBlobs {
+					// C13: for every blob just accepted, the predicted share count is what the encoder produces
+					nOrd, nBlobTx := 0, 0
+					for _, a := range accepted {
+						if a.isBlob {
+							nBlobTx++
+						} else {
+							nOrd++
+						}
+					}
+					for j, sp := range t.blobs {
+						bo, berr := sp.blob()
+						if berr != nil {
+							continue
+						}
+						sh, serr := bo.ToShares()
+						v, lerr := b.BlobShareLength(nOrd+nBlobTx-1, j)
+						c.oracle()
+						if serr == nil && lerr == nil && v != len(sh) {
+							fail("C13", fmt.Sprintf("the builder predicts %d shares for a %d-byte version-%d blob (signer of %d bytes, nil=%v); the encoder produces %d", v, len(bo.Data()), bo.ShareVersion(), len(bo.Signer()), bo.Signer() == nil, len(sh)))
+						}
+					}
 				}
 				if t.isBlob && sc.class == "" && c.rng.Chance(1, 12) {
 					// a hand-built blob transaction WITHOUT blobs (or nil), offered right after an accepted one: whatever
